@@ -51,17 +51,17 @@ class GaussianElectionModel(ConformalElectionModel):
         self.conformalization_data_unit = prediction_intervals.conformalization
 
         # gaussian model for single unit prediction intervals
-        quantile = (3 + alpha) / 4
-        lower_correction = stats.norm.ppf(
-            q=quantile,
-            loc=gaussian_model.mu_lower_bound,
-            scale=np.sqrt(gaussian_model.var_inflate + 1) * gaussian_model.sigma_lower_bound,
+        # quantile of N(mu, sd^2) written as mu + sd * z: scipy's ppf(q, loc, scale) is the same number for sd > 0 but NaN for
+        # sd = 0 (identical calibration scores, or beta = 0), where the quantile is simply mu
+        z_quantile = stats.norm.ppf((3 + alpha) / 4)
+        lower_correction = np.asarray(
+            gaussian_model.mu_lower_bound
+            + z_quantile * (np.sqrt(gaussian_model.var_inflate + 1) * gaussian_model.sigma_lower_bound)
         )
 
-        upper_correction = stats.norm.ppf(
-            q=quantile,
-            loc=gaussian_model.mu_upper_bound,
-            scale=np.sqrt(gaussian_model.var_inflate + 1) * gaussian_model.sigma_upper_bound,
+        upper_correction = np.asarray(
+            gaussian_model.mu_upper_bound
+            + z_quantile * (np.sqrt(gaussian_model.var_inflate + 1) * gaussian_model.sigma_upper_bound)
         )
 
         # save for later, but need to copy to avoid changing the original
@@ -259,7 +259,8 @@ class GaussianElectionModel(ConformalElectionModel):
         # and add correction (which is percentile of the Gaussian at the quantile we care about)
         self.modeled_bounds_agg = modeled_bounds
         self.conformalization_data_agg = conformalization_data
-        quantile = (3 + alpha) / 4
+        # mean + sd * z rather than ppf(q, loc=mean, scale=sd), which is NaN for sd = 0 (see the unit intervals)
+        z_quantile = stats.norm.ppf((3 + alpha) / 4)
 
         modeled_bounds = modeled_bounds.assign(
             lb_mean=lambda x: x.nonreporting_weight_sum * x.mu_lower_bound,
@@ -269,10 +270,8 @@ class GaussianElectionModel(ConformalElectionModel):
             ub_sd=lambda x: x.sigma_upper_bound
             * np.sqrt(x.nonreporting_weight_ssum + x.var_inflate * np.power(x.nonreporting_weight_sum, 2)),
         ).assign(
-            lb=lambda x: x.nonreporting_aggregate_lower_bound
-            - stats.norm.ppf(q=quantile, loc=x.lb_mean, scale=x.lb_sd),
-            ub=lambda x: x.nonreporting_aggregate_upper_bound
-            + stats.norm.ppf(q=quantile, loc=x.ub_mean, scale=x.ub_sd),
+            lb=lambda x: x.nonreporting_aggregate_lower_bound - (x.lb_mean + z_quantile * x.lb_sd),
+            ub=lambda x: x.nonreporting_aggregate_upper_bound + (x.ub_mean + z_quantile * x.ub_sd),
         )[
             aggregate + ["lb", "ub"]
         ]
